@@ -434,7 +434,7 @@ def run_check(pid, tier, builder):
             sig = None
             rep_out = ""
             for k in range(3):
-                r = subprocess.run([builder.exe(w.job["harness"]), "--prop", w.job["prop"], "--replay", final, "--out", os.path.join(rundir, "replay%d" % k)] + w.job.get("args", []),
+                r = subprocess.run([builder.exe(w.job["harness"]), "--prop", w.job["prop"], "--replay", final, "--out", os.path.join(rundir, "replay%d" % k)] + (["--known", known_sigs] if known_sigs else []) + w.job.get("args", []),
                                    stdout=subprocess.PIPE, stderr=subprocess.STDOUT, text=True, errors="replace", env=w.env, cwd=rundir, timeout=600)
                 rep_out = r.stdout
                 if r.returncode == 0:
@@ -550,7 +550,9 @@ def replay(pid, path, builder):
     builder.build([job["harness"]])
     rundir = os.path.join(BUILD, "run", "replay-%d" % os.getpid())
     os.makedirs(rundir, exist_ok=True)
-    r = subprocess.run([builder.exe(job["harness"]), "--prop", job["prop"], "--replay", os.path.abspath(path), "--out", os.path.join(rundir, "r")] + job.get("args", []),
+    known, _ = load_known()
+    ks = ",".join(k["sig"] for k in known if k["prop"] == pid)
+    r = subprocess.run([builder.exe(job["harness"]), "--prop", job["prop"], "--replay", os.path.abspath(path), "--out", os.path.join(rundir, "r")] + (["--known", ks] if ks else []) + job.get("args", []),
                        env=run_env(job.get("env")), cwd=rundir)
     shutil.rmtree(rundir, ignore_errors=True)
     if r.returncode != 0:
